@@ -384,13 +384,22 @@ def deployRemoteInterchainTokenRaw (C : Crypto) (cx : ICtx) (deploySalt destChai
       (.itsDeployRemote cx.self deploySalt destChain symbol destMinter gasValue sender)
     return tokenId
 
+/-- the 3rd transaction of the factory flow (factory.rs:99-110): mint the initial supply to the
+    deployer, then hand minter, flow-limiter and operator roles to the nominated minter -/
+def factoryMintStep (C : Crypto) (cx : ICtx) (tm minter : Bytes) (initialSupply : Nat) : M Unit := do
+  let _ ← subcall C cx tm "mint" 0 [] [cx.caller, encNat initialSupply]
+  let _ ← subcall C cx tm "transferMintership" 0 [] [minter]
+  let _ ← subcall C cx tm "removeFlowLimiter" 0 [] [cx.self]
+  let _ ← subcall C cx tm "addFlowLimiter" 0 [] [minter]
+  let _ ← subcall C cx tm "transferOperatorship" 0 [] [minter]
+
 /-- `deployInterchainToken` (factory.rs:26-110) -/
 def factoryDeployInterchainToken (C : Crypto) (cx : ICtx) (salt name symbol : Bytes) (decimals : Nat)
     (initialSupply : Nat) (minter : Bytes) : M Bytes := do
   requireNotPaused
   let st ← getI
   let deploySalt := interchainTokenDeploySalt C st cx.caller salt
-  let minterBytes ← (if initialSupply > 0 then pure cx.self
+  let minterBytes ← (if initialSupply > 0 then (if minter != cx.self then pure cx.self else fail)
                      else if !Gateway.isZeroAddr minter then (if minter != cx.self then pure minter else fail)
                      else fail : M Bytes)
   let tokenId := tokenIdRaw C deploySalt
@@ -406,11 +415,7 @@ def factoryDeployInterchainToken (C : Crypto) (cx : ICtx) (salt name symbol : By
     return tokenId
   require (egld == 0)
   if initialSupply > 0 then
-    let _ ← subcall C cx tm "mint" 0 [] [cx.caller, encNat initialSupply]
-    let _ ← subcall C cx tm "transferMintership" 0 [] [minter]
-    let _ ← subcall C cx tm "removeFlowLimiter" 0 [] [cx.self]
-    let _ ← subcall C cx tm "addFlowLimiter" 0 [] [minter]
-    let _ ← subcall C cx tm "transferOperatorship" 0 [] [minter]
+    factoryMintStep C cx tm minter initialSupply
   return tokenId
 
 def approveDeployRemote (C : Crypto) (cx : ICtx) (deployer salt destChain destMinter : Bytes) : M Unit := do
